@@ -87,3 +87,7 @@ Definition tie_parts (ps : position) (n : nat) (e : bexp) (lit : list instr) (or
     if compile_domain ps e then exec_agrees ps n e else true ].
 Definition tie_all (ps : position) (n : nat) (e : bexp) (lit : list instr) (orj : list nat) (ce : nat) (real : real_result) : bool :=
   forallb (fun b => b) (tie_parts ps n e lit orj ce real).
+
+(* the same without the exec/eval table (for expressions with many atoms: the table has 4^n rows) *)
+Definition tie_noexec (ps : position) (e : bexp) (lit : list instr) (orj : list nat) (ce : nat) (real : real_result) : bool :=
+  (if compile_domain ps e then code_eqb (compile ps e) lit else true) && analysis_eqb lit orj ce && result_eqb (decompile_code ps lit) real.
